@@ -81,7 +81,7 @@ func (w *zzRecWorld) block() {
 		}
 	}
 	w.tag++
-	kind := verifrt.Choice(4, "block-content")
+	kind := verifrt.Choice(5, "block-content")
 	switch kind {
 	case 0, 1: // one receipt (external / internal)
 		tx := zzBareTx(w.tag)
@@ -111,10 +111,30 @@ func (w *zzRecWorld) block() {
 		op := wire.OutPoint{Hash: src.tx.TxHash(), Index: src.out}
 		tx.AddTxIn(wire.NewTxIn(&op, nil, nil))
 		tx.AddTxOut(wire.NewTxOut(30000, []byte{0x00, 0x14, w.tag, 2, 3, 4, 5, 6, 7, 8, 9, 10, 11, 12, 13, 14, 15, 16, 17, 18, 19, 20}))
-		pay(waddrmgr.InternalBranch, tx, src.amount-30000-1000)
+		if verifrt.Choice(2, "with-change") == 1 {
+			pay(waddrmgr.InternalBranch, tx, src.amount-30000-1000)
+			verifrt.Reach("spend-with-change")
+		} else {
+			// nothing comes back: only the watched outpoint makes it relevant
+			verifrt.Reach("spend-without-change")
+		}
 		src.spent = true
 		txs = append(txs, tx)
-		verifrt.Reach("spend-with-change")
+	case 4: // a receipt and, later in the SAME block, a spend of it with change
+		tx := zzBareTx(w.tag)
+		pay(waddrmgr.ExternalBranch, tx, 100000+int64(w.tag)*1000)
+		src := w.pays[len(w.pays)-1]
+		w.tag++
+		tx2 := wire.NewMsgTx(2)
+		tx2.LockTime = uint32(w.tag) + 1
+		op := wire.OutPoint{Hash: tx.TxHash(), Index: src.out}
+		tx2.AddTxIn(wire.NewTxIn(&op, nil, nil))
+		// the whole amount leaves the wallet: the spend is relevant only
+		// because it consumes an output found earlier in this very block
+		tx2.AddTxOut(wire.NewTxOut(src.amount-1000, []byte{0x00, 0x14, w.tag, 2, 3, 4, 5, 6, 7, 8, 9, 10, 11, 12, 13, 14, 15, 16, 17, 18, 19, 20}))
+		src.spent = true
+		txs = append(txs, tx, tx2)
+		verifrt.Reach("receipt-spent-in-the-same-block")
 	}
 	w.highest = newHighest
 	c.txsAt[nb.height] = txs
